@@ -204,7 +204,7 @@ class BaseCurve(Intface_BaseCurve):
         if self.weights is None:
             newcurve = self.__class__(tuple(self.knotvector))
             newcurve.weights = [copy(point) for point in self.ctrlpoints]
-            newcurve.ctrlpoints = [1 / w for w in newcurve.weights]
+            newcurve.ctrlpoints = [other / w for w in newcurve.weights]
             return newcurve
         num, den = self.fraction()
         frac = den / num
